@@ -497,6 +497,11 @@ def check(run: Run) -> None:
         if not tests:
             run.finding("C20.m", "delta_has_effect_tsd:modified-not-an-effect", "a delta with a non-empty `modified` map must have an effect (return true)", loc=fa.loc(fa.body))
 
+    with run.obligation("C20.n", "K2", "a recording made in one run does not begin with the ticks of the run before it: the harness recorder's start erases the buffer under its key on "
+                        "every path, whatever layout (dense / elided) it records in (shared with C07.f)"):
+        from . import c07
+        R.share(run, "C20.n", c07, ["C07.f"])
+
 
 def _method(run: Run, struct: str, name: str) -> C.FuncAST:
     fi = run.tree.file(MEM)
